@@ -20,11 +20,46 @@ def check(tier, seed):
         return {"big": i % 3 == 0, "liveness": True, "stalls": True}
     R.engine(ck, PROP, tier, seed, {"faults": False, "vary": vary}, ("C03",), 160, 8000, proof_ok, nontrivial, "", project=("K",),
              extra_histories=lambda r, exe, tier: [R.gen_queue_full(r.fork("q%d" % i), exe) for i in range(3 if tier == "quick" else 40)])
+    # sustained load (monitor only; the model has no notion of a slow reader): a finished source repeats its final watermark
+    # while another source keeps the shared, slowly drained queue of the same target between half full and full; the
+    # target acknowledges everything it is sent.  The finished source must be told its final watermark while the load lasts.
+    sustained = []
+    for k, (delay, refill) in enumerate(((100, 60), (100, 55), (100, 66))):
+        h = ["I 2 1", "C 0", "XD 0 %d" % delay, "AA 0", "SB 1 80 1000 0"]
+        nid = 1080
+        for _ in range(7):
+            h += ["SB 1 %d %d 0" % (refill, nid), "S 0 50 0"]
+            nid += refill
+        h.append("E")
+        sustained.append(h)
+    errs, simpl = R.run_impl(sustained, "c03s")
+    if errs:
+        ck.obligation("sustained-load run", False, errs[:1500])
+    else:
+        starved = []
+        for h, ev in zip(sustained, simpl):
+            got = any(l == "K 0 50" for e, lines in ev[:-1] for l in lines)
+            if not got:
+                starved.append(h)
+        ck.obligation("under sustained load from another source (target queue kept between half full and full, %d load profiles) a finished source still receives its final watermark" % len(sustained),
+                      not starved, "%d profiles starve" % len(starved))
+        if starved and not ck.violations:
+            ck.violation({"kind": "sustained", "history": starved[0], "verdict": "source 0 never received the acknowledgement of its final high watermark 50 while source 1 kept the target's queue at least half full"},
+                         "C03: source 0 finished at watermark 50 and kept repeating it for 20 s, the target acknowledged everything it was sent, yet source 0 was never told 50")
     return ck.finish(rule="histories with slow (stalled, queue-filling) targets, idle targets and late targets, each ending with completion rounds; monitor: acks per source never decrease, never exceed "
                           "the last exclusive high watermark received, and the last ack equals the final high watermark; non-trivial = a stalled target or >= 2 targets")
 
 
-replay = R.replay
+def replay(data):
+    if data.get("kind") == "sustained":
+        err, impl = R.run_impl([data["history"]], "c03r")
+        if err:
+            print(err)
+            return 1
+        got = any(l == "K 0 50" for e, lines in impl[0][:-1] for l in lines)
+        print("source 0 told its final watermark while the load lasted:", got)
+        return 0 if got else 1
+    return R.replay(data)
 
 MANIFEST = {
     "technique": "Coq proof that every acknowledgement of every fault-free action sequence is monotone and bounded (corollary of the routing invariant) + correspondence and "
